@@ -10,6 +10,10 @@ func H_C10(nc, ns, nr, recov, enc, entry int) {
 	if failRouting {
 		entry = 0
 	}
+	defaultHandler := recov == 2 // recovery on, with the framework's own recover handler
+	if defaultHandler {
+		recov = 1
+	}
 	led := vNewLedger(vProvider(0))
 	old := currentCompressorProvider
 	SetCompressorProvider(led)
@@ -20,12 +24,14 @@ func H_C10(nc, ns, nr, recov, enc, entry int) {
 	c.DoNotRecover(recov == 0)
 	recovered := 0
 	var recVal interface{}
-	c.RecoverHandler(func(r interface{}, w http.ResponseWriter) {
-		recovered++
-		recVal = r
-		w.WriteHeader(500)
-		w.Write([]byte("rec"))
-	})
+	if !defaultHandler {
+		c.RecoverHandler(func(r interface{}, w http.ResponseWriter) {
+			recovered++
+			recVal = r
+			w.WriteHeader(500)
+			w.Write([]byte("rec"))
+		})
+	}
 	nf := len(k.filts)
 	for _, f := range k.filts {
 		f.replace = false // a replaced pair writes to another recorder (C06's concern); here the client is one recorder
@@ -67,6 +73,19 @@ func H_C10(nc, ns, nr, recov, enc, entry int) {
 		}
 	}()
 	// did the chosen position get reached? (a filter that stops earlier prevents it)
+	if defaultHandler {
+		// the default handler writes a 500 with a report; what can be judged is: nothing escapes, the body is one
+		// complete stream, and the framework announces no length it cannot know (the body may be encoded)
+		verifCover("default-handler")
+		verifAssert(escaped == nil, "C10: a panic escaped Dispatch/ServeHTTP although recovery is on")
+		ce := vHdr1(rec, "Content-Encoding")
+		_, ok := verifDecodeBody(rec.chunks, ce)
+		verifAssert(ok, "C10: the response body after a recovered panic is not complete/decodable")
+		verifAssert(ce == "" || len(rec.hdr["Content-Length"]) == 0, "C10: a Content-Length was announced for a response that is encoded on the way out")
+		verifAssert(verifLocksFree(), "C10: a lock is still held after the request")
+		verifAssert(led.clean(), "C10: a compressor was lost, released twice or used after release (C13)")
+		return
+	}
 	raised := recovered > 0 || escaped != nil
 	verifObserveBool("raised", raised)
 	verifObserveInt("status", rec.code())
